@@ -189,19 +189,31 @@ func (s *c08Srv) fence() {
 	s.call("luahelper/getOnlineReq", map[string]int{"Req": 0})
 }
 
-// pluginPath: the VS Code extension always passes its own directory; without it DirManager.IsInDir is constantly
-// true (strings.HasPrefix(file, "")) and the close-outside-workspace branch of didClose is unreachable.
-func (s *c08Srv) initialize(root string, pluginPath string) {
-	s.call("initialize", map[string]interface{}{
-		"processId": nil,
-		"rootPath":  root,
-		"rootUri":   "file://" + root,
-		"initializationOptions": map[string]interface{}{
-			"client": "vsc", "LocalRun": true, "AllEnable": true, "PluginPath": pluginPath,
-			"CheckSyntax": true, "CheckNoDefine": true, "CheckAfterDefine": true, "CheckFuncParam": true, "CheckLocalNoUse": true, "CheckReferNoFile": true,
-		},
-		"capabilities": map[string]interface{}{},
-	})
+// pluginPath: the VS Code extension always passes its own directory; "" = the option is not sent (a client other than the
+// VS Code extension). folders = further workspace folders besides the root (multi-root workspace).
+func (s *c08Srv) initialize(root string, pluginPath string, folders ...string) {
+	opts := map[string]interface{}{
+		"client": "vsc", "LocalRun": true, "AllEnable": true,
+		"CheckSyntax": true, "CheckNoDefine": true, "CheckAfterDefine": true, "CheckFuncParam": true, "CheckLocalNoUse": true, "CheckReferNoFile": true, "CheckAnnotateType": true,
+	}
+	if pluginPath != "" {
+		opts["PluginPath"] = pluginPath
+	}
+	params := map[string]interface{}{
+		"processId":             nil,
+		"rootPath":              root,
+		"rootUri":               "file://" + root,
+		"initializationOptions": opts,
+		"capabilities":          map[string]interface{}{},
+	}
+	if len(folders) > 0 {
+		wf := []map[string]interface{}{{"uri": "file://" + root, "name": "w"}}
+		for _, f := range folders {
+			wf = append(wf, map[string]interface{}{"uri": "file://" + f, "name": "o"})
+		}
+		params["workspaceFolders"] = wf
+	}
+	s.call("initialize", params)
 	s.notify("initialized", map[string]interface{}{})
 	s.fence()
 }
@@ -247,7 +259,8 @@ func (s *c08Srv) watched(evs []c08Watched) {
 }
 
 // renderView prints the folded view canonically: files in the fixed order of `names` (path -> short name),
-// unknown URIs last (sorted) with their path relativised; diagnostics in the order sent: "t@line#tag" (c08Tag).
+// unknown URIs last (sorted) with their path relativised; diagnostics in the order sent (but see c08SortDupRuns):
+// "t@line#tag" (c08Tag).
 func (s *c08Srv) renderView(order []string, short map[string]string, roots []string) string {
 	var parts []string
 	seen := map[string]bool{}
@@ -255,6 +268,7 @@ func (s *c08Srv) renderView(order []string, short map[string]string, roots []str
 		if len(l) == 0 {
 			return
 		}
+		l = c08SortDupRuns(l)
 		ds := make([]string, len(l))
 		for i, d := range l {
 			ds[i] = fmt.Sprintf("%d@%d#%s", d.Typ, d.Line, c08Tag(d, roots))
@@ -284,6 +298,33 @@ func (s *c08Srv) renderView(order []string, short map[string]string, roots []str
 		return "-"
 	}
 	return strings.Join(parts, ";")
+}
+
+// c08SortDupRuns: checkAllAnnotate appends the "duplicate annotate type" warnings (type 18) of a file while ranging over the
+// Go map createTypeMap, so when a file declares two duplicated class names their mutual order is not determined (the property
+// compares lists up to order). Every maximal run of such warnings is put in line order; everything else keeps the order sent.
+func c08SortDupRuns(l []c08Diag) []c08Diag {
+	isDup := func(d c08Diag) bool {
+		return d.Typ == 18 && strings.Contains(d.Msg, "duplicate annotate type")
+	}
+	out := append([]c08Diag(nil), l...)
+	for i := 0; i < len(out); {
+		if !isDup(out[i]) {
+			i++
+			continue
+		}
+		j := i
+		for j < len(out) && isDup(out[j]) {
+			j++
+		}
+		for a := i + 1; a < j; a++ {
+			for b := a; b > i && (out[b].Line < out[b-1].Line || (out[b].Line == out[b-1].Line && out[b].Msg < out[b-1].Msg)); b-- {
+				out[b], out[b-1] = out[b-1], out[b]
+			}
+		}
+		i = j
+	}
+	return out
 }
 
 func sortStrings(a []string) {
